@@ -25,8 +25,8 @@ import (
 type c02PanicTest struct {
 	d       *ssa.Defer
 	df      *ssa.Function
-	flag    *ssa.Alloc  // the completion flag: a bool local of the deferring function (nil: none)
-	flags   int         // number of distinct bool locals of the deferring function that df tests
+	flag    *ssa.Alloc  // the completion flag: a bool local of the deferring function, or a per-run cell of a function enclosing it (nil: none)
+	flags   int         // number of distinct such bools that df tests
 	flagArm []core.Edge // edges establishing !flag
 	flagSet []core.Edge // edges establishing flag
 	recArm  []core.Edge // edges establishing recover() != nil
@@ -48,10 +48,72 @@ func c02FlagHome(d *ssa.Defer, df *ssa.Function, addr ssa.Value) *ssa.Alloc {
 		}
 	}
 	al, ok := c02Home(addr).(*ssa.Alloc)
-	if !ok || al.Parent() != d.Parent() {
+	if !ok || (al.Parent() != d.Parent() && !c02Encloses(al.Parent(), d.Parent())) {
 		return nil
 	}
 	return al
+}
+
+// c02Encloses reports whether closure f is created (through any number of closure levels) by outer.
+func c02Encloses(outer, f *ssa.Function) bool {
+	for i := 0; i < 8 && f != nil; i++ {
+		mc := c02MakerOf(f)
+		if mc == nil {
+			return false
+		}
+		if f = mc.Parent(); f == outer {
+			return true
+		}
+	}
+	return false
+}
+
+// c02FlagLaunches: the completion flag lives in an enclosing function F of the deferring function f
+// (`run := &state{...}; go run.serve()` with the flag a field of the per-request state, which the loader
+// presents as a cell of F captured by the goroutine). It is a flag of THIS run of f only when f runs at
+// most once per instance of the cell: on every level from f up to F the closure is created at one place,
+// its only use is being the callee of one call/go/defer, and that instruction cannot execute again without
+// the cell being allocated anew. Returns, per function above f on that chain, the instruction in it that
+// runs the next level down; or why the shape is not understood.
+func c02FlagLaunches(flag *ssa.Alloc, f *ssa.Function) (launch map[*ssa.Function]ssa.Instruction, why string) {
+	launch = map[*ssa.Function]ssa.Instruction{}
+	home := flag.Parent()
+	for g, i := f, 0; g != home; i++ {
+		mc := c02MakerOf(g)
+		if i >= 8 || mc == nil || len(c02Makers[g]) > 1 || mc.Referrers() == nil {
+			return nil, core.FuncName(g) + " is created at several places"
+		}
+		var l ssa.Instruction
+		n := 0
+		for _, ref := range *mc.Referrers() {
+			if _, dbg := ref.(*ssa.DebugRef); dbg {
+				continue
+			}
+			n++
+			if c, ok := ref.(ssa.CallInstruction); ok && c.Common().Value == ssa.Value(mc) && !c.Common().IsInvoke() {
+				l = ref
+				for _, a := range c.Common().Args {
+					if a == ssa.Value(mc) {
+						l = nil
+					}
+				}
+			}
+		}
+		if n != 1 || l == nil {
+			return nil, core.FuncName(g) + " is not simply run where it is created"
+		}
+		par := mc.Parent()
+		var fresh func(ssa.Instruction) bool
+		if par == home {
+			fresh = core.Is(flag)
+		}
+		if _, again := core.Reach(core.Q{From: []core.At{core.After(l)}, Target: core.Is(l), Blocked: fresh}); again {
+			return nil, core.FuncName(g) + " can be started several times with the same completion flag"
+		}
+		launch[par] = l
+		g = par
+	}
+	return launch, ""
 }
 
 func c02PanicTestOf(d *ssa.Defer) *c02PanicTest {
@@ -69,8 +131,25 @@ func c02PanicTestOf(d *ssa.Defer) *c02PanicTest {
 		}
 		return c02FlagHome(d, df, u.X)
 	}
-	finished := core.BoolVal(func(v ssa.Value) bool {
+	// the bools df tests: locals of the deferring function; when it tests none of its own, cells of the
+	// functions enclosing it (per-run state built by the function that starts it, see c02FlagLaunches)
+	own, outer := map[*ssa.Alloc]bool{}, map[*ssa.Alloc]bool{}
+	core.EdgesOf(df, core.BoolVal(func(v ssa.Value) bool {
 		if h := flagOf(v); h != nil {
+			if h.Parent() == d.Parent() {
+				own[h] = true
+			} else {
+				outer[h] = true
+			}
+			return true
+		}
+		return false
+	}))
+	if len(own) == 0 {
+		own = outer
+	}
+	finished := core.BoolVal(func(v ssa.Value) bool {
+		if h := flagOf(v); h != nil && own[h] {
 			homes[h] = true
 			return true
 		}
@@ -108,9 +187,11 @@ func (pt *c02PanicTest) missed(action func(ssa.Instruction) bool) ssa.Instructio
 
 // c02CheckCompletionFlag decides that the deferred function of pt recognises every panic of the
 // protected calls, whatever the panic value:
-//   - it tests a completion flag (a bool local of the deferring function), not only recover()'s value;
+//   - it tests a completion flag (a bool local of the deferring function, or a cell of an enclosing function
+//     that exists once per run of the deferring function: c02FlagLaunches), not only recover()'s value;
 //   - the flag is false whenever a protected call runs: it is written only by the deferring function
-//     itself, only with constants, and no store of true can be followed by a protected call;
+//     itself (an enclosing function may initialise it to false before starting the deferring function), only
+//     with constants, and no store of true can be followed by a protected call;
 //   - it is true whenever a protected call returned normally: every path from the call to a return
 //     passes a store of true and no store of false (otherwise a normal completion is taken for a panic);
 //   - on the panicked arm recover() is called on every path (the panic is stopped).
@@ -133,6 +214,15 @@ func c02CheckCompletionFlag(o *core.O, p *core.Prog, pt *c02PanicTest, protected
 	if len(protected) == 0 {
 		o.Unres("%s: no protected call found in %s", what, core.FuncName(f))
 		return
+	}
+	// a flag that lives in an enclosing function: f runs at most once per instance of it
+	launch := map[*ssa.Function]ssa.Instruction{}
+	if flag.Parent() != f {
+		var why string
+		if launch, why = c02FlagLaunches(flag, f); why != "" {
+			o.Unres("the completion flag is a variable of %s and %s (shape not understood)", core.FuncName(flag.Parent()), why)
+			return
+		}
 	}
 	// every use of the flag
 	isFlagAddr := func(a ssa.Value) bool {
@@ -177,17 +267,45 @@ func c02CheckCompletionFlag(o *core.O, p *core.Prog, pt *c02PanicTest, protected
 		prot[g] = append(prot[g], h)
 	}
 	trues, falses := map[*ssa.Function][]ssa.Instruction{}, map[*ssa.Function][]ssa.Instruction{}
-	fs := c02WithClosures(f)
+	fs := c02WithClosures(flag.Parent())
 	if df.Parent() == nil {
 		fs = append(fs, df)
 	}
 	for _, g := range fs {
+		// a captured flag is only loaded, stored to and captured again
+		for _, fv := range g.FreeVars {
+			if fv.Referrers() == nil || c02Home(fv) != ssa.Value(flag) {
+				continue
+			}
+			for _, ref := range *fv.Referrers() {
+				switch x := ref.(type) {
+				case *ssa.DebugRef, *ssa.UnOp, *ssa.MakeClosure:
+				case *ssa.Store:
+					if x.Addr != ssa.Value(fv) {
+						o.Fail(p.InstrPos(x), "the address of the completion flag is stored away: it can be written behind the rule's back")
+					}
+				case *ssa.Defer:
+					if x != d {
+						o.Fail(p.InstrPos(x), "the completion flag is handed to another deferred call")
+					}
+				default:
+					o.Fail(p.InstrPos(ref), "the completion flag escapes from %s", core.FuncName(g))
+				}
+			}
+		}
 		for _, in := range core.Instrs(g, func(in ssa.Instruction) bool { st, ok := in.(*ssa.Store); return ok && isFlagAddr(st.Addr) }) {
 			st := in.(*ssa.Store)
 			c, ok := core.Strip(st.Val).(*ssa.Const)
 			if !ok || c.Value == nil || c.Value.Kind() != constant.Bool {
 				o.Fail(p.InstrPos(in), "the completion flag is assigned %s (not a constant)", core.Describe(st.Val))
 				continue
+			}
+			if l := launch[g]; l != nil && !constant.BoolVal(c.Value) {
+				// the enclosing function initialising the flag to false before it starts the code that runs the
+				// protected call
+				if _, late := core.Reach(core.Q{From: []core.At{core.After(l)}, Target: core.Is(in)}); !late {
+					continue
+				}
 			}
 			if g != f && prot[g] == nil {
 				o.Fail(p.InstrPos(in), "the completion flag is written in %s, not by the code that runs %s", core.FuncName(g), what)
